@@ -61,12 +61,16 @@ def issub(t, cid: int):
 
 CLASSES: dict[str, int] = {}
 PARENTS: dict[str, tuple[str, ...]] = {}
+_BYID: dict[int, str] = {}
+_ANC: dict[str, frozenset] = {}
 
 
 def defclass(name: str, *parents: str) -> int:
     if name not in CLASSES:
         CLASSES[name] = len(CLASSES) + 1
         PARENTS[name] = parents
+        _BYID[CLASSES[name]] = name
+        _ANC.clear()
     return CLASSES[name]
 
 
@@ -94,9 +98,6 @@ for _n, _p in [
     defclass(_n, *_p)
 
 
-_ANC: dict[str, frozenset] = {}
-
-
 def ancestors(name: str) -> frozenset:
     if name not in _ANC:
         out = {name}
@@ -108,7 +109,6 @@ def ancestors(name: str) -> frozenset:
 
 for _n in [n for n in CLASSES if 'BaseException' in ancestors(n)]:
     defclass('User_' + _n, _n)
-_BYID = {v: k for k, v in CLASSES.items()}
 
 
 def classobj(name: str):
